@@ -41,6 +41,9 @@ MkChan(cap, isnil) == [buf |-> <<>>, closed |-> FALSE, cap |-> cap, nil |-> isni
 
 SendMeths == {"write", "scheck", "signore", "zero", "signal", "sproc"}
 RecvMeths == {"read", "rcheck", "ok", "force", "drop", "rignore", "rprod"}
+\* pubsub.DistributorChanOp(op) with an input / output filter (buffer.go:37-54, 87-89):
+\*   dsendf  d.WithInputFilter(f).Send     drecvf  d.WithOutputFilter(f).Receive
+DistMeths == {"dsendf", "drecvf"}
 LoopMeths == {"sconsume", "rconsume", "next"}
 \* ChanReceive.Ok() takes no context: its select has no ctx.Done arm (chan.go:188-204)
 HasCtxArm(meth) == meth # "ok"
